@@ -52,7 +52,7 @@ var floatTexts = []string{"1.5", "-2.5", "1e3", "1E-2", ".5", "5.", "0.1", "00.5
 
 var boolTexts = []string{"true", "false", "TRUE", "True", "FALSE", "1", "0", "yes", "no", "maybe", "t", "f", "on", "off", "", " true", "enabled", "checked", "ok", "y", "n", "selected"}
 
-var strTexts = []string{"abc", "", " a b ", "a,b", "a|b", "ab", "a", "a b\tc", "%41", "a+b", "a&b=c", "x=y", "\"q\"", "a;b", "caf\xc3\xa9", "\xff\xfe", "#frag", "?q"}
+var strTexts = []string{"abc", "", " a b ", "a,b", "a|b", "ab", "a", "a b\tc", "%41", "a+b", "a&b=c", "x=y", "\"q\"", "a;b", "caf\xc3\xa9", "\xff\xfe", "#frag", "?q", "\xc5\xba", "\xf0\x9f\x98\x80", "\xed\xa0\x80"}
 
 // the format tables of specs/gen_parambind_tables.py (valid and invalid texts)
 var formatTexts = map[string][]string{
@@ -379,7 +379,9 @@ func generate(c *drv.Ctx) {
 					case "number":
 						texts = []string{"0", "0.5", "1", "1.5", "1.50", "2", "7", "7.0", "7.5", "-1", "1e0", "", "x"}
 					case "string":
-						texts = []string{"", "a", "ab", "abc", "abcd", "AB"}
+						// lengths are counted in characters: 1, 2, 4 characters, two invalid bytes (2), one 4-byte character, a surrogate (3), an overlong form (2)
+						texts = []string{"", "a", "ab", "abc", "abcd", "AB", "\xc5\xba", "a\xc5\xba", "\xe2\x82\xac\xc5\xba\xc5\xba\xc5\xba", "\xff\xfe",
+							"\xf0\x9f\x98\x80", "\xed\xa0\x80", "\xc0\xaf", "ab\xc5\xba", "\xc5\xba\xc5\xba\xc5"}
 					}
 					c.Case(bindCase(d, requestsFor(d, texts, []string{texts[4], ""})))
 					nVal++
